@@ -65,7 +65,7 @@ def cases(tier, seed):
         cs.append({'fam': 'fault', 'T': 'T3', 'op': 'crafted', 'conn': 'probe', 'at': 'gexgroup', 'what': 'degenerate-group:p=%d' % pv, 'hex': _w.packet(_w.gex_group(pv, gv)).hex()})
     for what, blob in (('rsa-zero-modulus', _w.string('ssh-rsa') + _w.mpint(65537) + _w.mpint(0)), ('type-only', _w.string('ssh-rsa')), ('empty-blob', b'')):
         cs.append({'fam': 'fault', 'T': 'T2', 'op': 'crafted', 'conn': 'probe', 'at': 'kexreply', 'what': 'hostkey:' + what, 'hex': _w.packet(_w.kex_reply(31, blob)).hex()})
-    for beh in ('normal', 'accept-close', 'silent', 'stop-listening', 'exceeded', 'slow', 'garbage'):
+    for beh in ('normal', 'accept-close', 'silent', 'stop-listening', 'serve-some-then-close', 'exceeded', 'slow', 'garbage'):
         for rep_ in range(2 if tier == 'quick' else 10):
             cs.append({'fam': 'rate', 'behaviour': beh, 'gex': rep_ % 2 == 1})
     for i in range(3 if tier == 'quick' else 10):
@@ -215,6 +215,9 @@ def run_case(c):
             sel = {'ge': 2 + 7}
         if beh == 'accept-close':
             script['faults'] = [{'conn': sel, 'at': 'banner', 'op': 'close_before'}]
+        elif beh == 'serve-some-then-close':
+            # MaxStartups-like: four connections of the rate check get a banner (and count as opened), every later one is closed at once - whatever the timing, the budget of attempts still holds
+            script['faults'] = [{'conn': {'ge': sel['ge'] + 4}, 'at': 'banner', 'op': 'close_before'}]
         elif beh == 'silent':
             script['faults'] = [{'conn': sel, 'at': 'banner', 'op': 'stall_before'}]
         elif beh == 'exceeded':
@@ -227,10 +230,11 @@ def run_case(c):
         if beh == 'stop-listening':
             import threading
             import time
+            until = sel['ge']
 
             def stopper():
                 end = time.monotonic() + 30
-                while time.monotonic() < end and len(pr.conns) < sel['ge']:
+                while time.monotonic() < end and len(pr.conns) < until:
                     time.sleep(0.002)
                 # wait for that last probe connection to finish, then refuse everything
                 while time.monotonic() < end and pr.open_conns():
